@@ -67,7 +67,7 @@ impl Type {
             Type::Raw(path) => type_registry.get(path).and_then(|t| t.size()),
             Type::ConstPointer(_) => Some(type_registry.pointer_size()),
             Type::MutPointer(_) => Some(type_registry.pointer_size()),
-            Type::Array(tr, count) => tr.size(type_registry).map(|s| s * count),
+            Type::Array(tr, count) => tr.size(type_registry)?.checked_mul(*count),
             Type::Function(_, _, _) => Some(type_registry.pointer_size()),
         }
     }
@@ -79,6 +79,19 @@ impl Type {
             Type::MutPointer(_) => Some(type_registry.pointer_size()),
             Type::Array(tr, _) => Some(tr.alignment(type_registry)?),
             Type::Function(_, _, _) => Some(type_registry.pointer_size()),
+        }
+    }
+    /// Returns true if the size of this type cannot be represented: an array whose
+    /// element size times its length overflows.
+    pub(crate) fn size_overflows(&self, type_registry: &type_registry::TypeRegistry) -> bool {
+        match self {
+            Type::Array(tr, count) => {
+                tr.size_overflows(type_registry)
+                    || tr
+                        .size(type_registry)
+                        .is_some_and(|s| s.checked_mul(*count).is_none())
+            }
+            _ => false,
         }
     }
     pub fn raw(path: impl Into<ItemPath>) -> Self {
